@@ -379,7 +379,7 @@ type viol struct {
 }
 
 type stats struct {
-	applied, routeRuns, dumpCmp, respCmp, stuck, failing, phantom, behind int64
+	applied, routeRuns, dumpCmp, respCmp, stuck, failing, phantom, behind, r4Survived, r4Lost int64
 	perRoute                                                      map[string]int64
 	commitOffsets                                                 map[int64]struct{}
 }
@@ -504,6 +504,7 @@ func routeR4(l *leader, f, i int, st *stats) *viol {
 	mem := vfs.NewStrictMem()
 	dir := regFS("r4", mem)
 	defer fsReg.Delete(dir)
+	makeDurableDir(mem, filepath.Join(dir, ns, fmt.Sprintf("shard-%d", shard)))
 	fac := oxh.NewDirFactory(dir)
 	defer fac.Close()
 	db, err := newDB(fac)
@@ -543,6 +544,12 @@ func routeR4(l *leader, f, i int, st *stats) *viol {
 	if v != nil {
 		v.msg = fmt.Sprintf("flush after %d entries, crash after %d: %s", f, i, v.msg)
 		return v
+	}
+	if from > 0 {
+		st.r4Survived++
+	}
+	if from < i {
+		st.r4Lost++
 	}
 	if ok, v := resume(db, l, from, route, st); v != nil || !ok {
 		return v
@@ -754,6 +761,8 @@ func (a *agg) merge(s *stats) {
 	a.st.failing += s.failing
 	a.st.phantom += s.phantom
 	a.st.behind += s.behind
+	a.st.r4Survived += s.r4Survived
+	a.st.r4Lost += s.r4Lost
 	for k, v := range s.perRoute {
 		a.st.perRoute[k] += v
 	}
@@ -908,7 +917,7 @@ func main() {
 	r6every := 40
 	if run.Tier == "thorough" {
 		allPairs = true
-		passes = []pass{{"routes R2,R3,R4,R6", 0, ""}, {"R5 chunk=7", 7, ""}, {"R5 chunk=1MiB", 1 << 20, ""}, {"R5 chunk=4096", 4096, ""}, {"R5 chunk=1 (not full/)", 1, "full/"}}
+		passes = []pass{{"routes R2,R3,R4,R6", 0, ""}, {"R5 chunk=7", 7, ""}, {"R5 chunk=1MiB", 1 << 20, ""}, {"R5 chunk=4096 (not full/)", 4096, "full/"}, {"R5 chunk=1 (not full/)", 1, "full/"}}
 		budget = 22 * time.Minute
 		r6every = 10
 	}
@@ -916,6 +925,11 @@ func main() {
 		code := doReplay(*replay, cfgs, passes)
 		os.RemoveAll(scratch)
 		os.Exit(code)
+	}
+	if v := os.Getenv("VERIF_BUDGET_S"); v != "" {
+		var sec int
+		fmt.Sscanf(v, "%d", &sec)
+		budget = time.Duration(sec) * time.Second
 	}
 	deadline := time.Now().Add(budget)
 	a := &agg{st: newStats(), finals: map[[32]byte]struct{}{}}
@@ -942,6 +956,8 @@ func main() {
 	run.Add("version_ids_consumed_by_rejected_entries", st.phantom)
 	run.Add("replicas_stuck_on_entry_the_leader_rejected", st.stuck)
 	run.Add("graceful_restart_or_snapshot_behind_applied_offset", st.behind)
+	run.Add("crash_runs_where_some_entries_survived", st.r4Survived)
+	run.Add("crash_runs_where_some_entries_were_lost", st.r4Lost)
 	var rs []string
 	for k := range st.perRoute {
 		rs = append(rs, k)
@@ -1028,4 +1044,30 @@ func doReplay(path string, cfgs []config, passes []pass) int {
 	}
 	fmt.Println("config not found")
 	return 2
+}
+
+// makeDurableDir creates dir on the strict MemFS and fsyncs every ancestor so that the directory
+// itself survives a crash (Pebble never syncs the parent of its data directory; on journaling
+// filesystems the fsync of a file inside commits the creation of its parents, which the strict
+// MemFS does not model).
+func makeDurableDir(mem *vfs.MemFS, dir string) {
+	if err := mem.MkdirAll(dir, 0o755); err != nil {
+		panic(err)
+	}
+	p := dir
+	for {
+		parent := mem.PathDir(p)
+		d, err := mem.OpenDir(parent)
+		if err != nil {
+			panic(err)
+		}
+		if err := d.Sync(); err != nil {
+			panic(err)
+		}
+		_ = d.Close()
+		if parent == p || parent == "/" || parent == "." {
+			break
+		}
+		p = parent
+	}
 }
